@@ -22,6 +22,9 @@ FLAVOURS = {
     # the shipped default: no contract macros
     "off-asan": {"cxx": "g++", "flags": SAN, "run_scale": 0.35},
     "chk-O0": {"cxx": "g++", "flags": ["-O0", "-DTETL_ENABLE_CONTRACT_CHECKS=1"], "run_scale": 0.5},
+    # a second compiler (clang 14 cannot compile the bitset, variant and tuple_cat headers: P0634, pack expansion and CTAD-in-lambda gaps, so
+    # those three families are g++ only); exercises the `#if defined(__clang__)` branches and another optimiser
+    "chk-clang": {"cxx": "clang++", "flags": ["-O2", "-DTETL_ENABLE_CONTRACT_CHECKS=1"], "run_scale": 0.5, "skip_families": ["bits", "ovx", "fn"]},
     # plain binary for the valgrind/memcheck pass: the arena is handed to memcheck as undefined before each construction
     "vg-O1": {"cxx": "g++", "flags": ["-O1", "-g1", "-DSIM_VALGRIND=1", "-DTETL_ENABLE_CONTRACT_CHECKS=1"], "run_scale": 0.0},
 }
@@ -117,9 +120,9 @@ PROPS = {
                 "patterns in the arena, under ASan+UBSan, with guard zones, exact-size heap argument buffers and the allocator "
                 "tripwire armed; non-trivial and distinct as for C01",
         "assumptions": COMMON_ASSUME + ["sanitizer coverage is that of g++ 12 ASan/UBSan; intra-object overflow is only seen through state divergence"],
-        "quick": {"flavours": ["chk-asan", "off-asan"], "runs": 300000, "max_seconds": 40},
+        "quick": {"flavours": ["chk-asan", "off-asan"], "runs": 300000, "max_seconds": 40, "cross_compiler": {"runs": 160000}},
         "thorough": {"flavours": ["chk-asan", "off-asan", "chk-O2", "chk-O0"], "runs": 6000000, "max_seconds": 240,
-                     "valgrind_runs": 600},
+                     "valgrind_runs": 600, "cross_compiler": {"runs": 1600000}},
     },
     "C03": {
         "families": ["vec", "set", "ovx", "fn"],
@@ -161,7 +164,8 @@ MANIFEST_TEXT = {
         "text": "Every valid history of the stateful anchored types is executed under ASan+UBSan inside a guarded arena pre-filled with "
                 "seeded garbage, with exact-size heap argument buffers and an allocator that trips inside library calls; each plan is run "
                 "under two garbage patterns and the event logs must be identical (uninitialised reads). C-string / wide-string functions run as "
-                "histories over exact-size caller buffers between canaries. Exploration over sampled histories.",
+                "histories over exact-size caller buffers between canaries; the same seeds are run by a g++ and a clang build and must produce "
+                "identical event logs (compiler-dependent behaviour). Exploration over sampled histories.",
         "note": "Only the history part of the property is decided; direct sweeps of pure call tuples (view searches, to_chars buffers, "
                 "algorithms) are reached only as far as the container histories call them. Intra-object overflow is visible only as a "
                 "state divergence.",
